@@ -33,7 +33,8 @@ from ..repo import child_env
 from ..tlaval import FD, iter_dump, parse_simulate_file
 from ..tlc import MachineryError, run_tlc
 
-PARTS = ["wide", "pairs", "deep1", "deep2", "deep3", "symbols"]
+PARTS_QUICK = [["wideN"], ["deep2"], ["pairs"], ["deep1", "deep3"], ["wideO", "symbols", "triples"]]
+PARTS_THOROUGH = [["wideN"], ["pairs"], ["deep2"], ["deep1"], ["deep3"], ["wideO"], ["triples"], ["symbols"]]
 CLAUSE_WHAT = {
     "Total": "conversion raised an exception (not total)",
     "Shape": "output does not match the documented form: a run is lost / duplicated / out of order, a "
@@ -44,9 +45,9 @@ CLAUSE_WHAT = {
     "Pptx": "read_pptx does not report the formula as omml_to_latex renders it (or the document failed)",
 }
 SENSITIVITY = [  # deviation, universe part, invariant that must fail
-    ("NoneAttrIterated", "wide", "Inv_Total"),
+    ("NoneAttrIterated", "wideN", "Inv_Total"),
     ("OverwritePendingSqrt", "pairs", "Inv_Balance"),
-    ("NoneDelimiterPrinted", "wide", "Inv_Shape"),
+    ("NoneDelimiterPrinted", "wideO", "Inv_Shape"),
     ("RadContentBeforeDeg", "deep2", "Inv_Balance"),
     ("DescendantPropLookup", "deep2", "Inv_Shape"),
 ]
@@ -521,7 +522,7 @@ _AT = re.compile(r'<<"AT", (\d+), (\d+)>>')
 TRACE_CFG = "SPECIFICATION TraceSpec\nCONSTANTS Deviations = {}\nCONSTRAINT TraceAccept\n"
 
 
-def validate_traces(traces, scratch, parallel=12, min_chunk=400, timeout=1500):
+def validate_traces(traces, scratch, parallel=12, min_chunk=2000, timeout=1500):
     """-> (reached list: len(ev) when accepted else number of events matched, distinct, generated, wall).
     Like mbv.traces.validate, but the rejected traces of a chunk are re-run together (one TLC run
     with MBV_PROGRESS=1), because a broken converter rejects thousands of traces at once."""
@@ -579,7 +580,8 @@ def make_trace(c):
 # ------------------------------------------------------------------ driver
 def _enum_cfg(part, profile, devs=(), invs=("Inv_Total", "Inv_Shape", "Inv_Balance")):
     d = "{" + ", ".join(f'"{x}"' for x in devs) + "}"
-    return (f'SPECIFICATION SpecEnum\nCONSTANTS Deviations = {d}\n Profile = "{profile}"\n Part = "{part}"\n'
+    ps = "{" + ", ".join(f'"{x}"' for x in part) + "}"
+    return (f'SPECIFICATION SpecEnum\nCONSTANTS Deviations = {d}\n Profile = "{profile}"\n Part = {ps}\n'
             " MaxStack = 4\n MaxLen = 3\n" + "".join(f"INVARIANT {i}\n" for i in invs))
 
 
@@ -649,9 +651,10 @@ def run(ctx):
 
     # ---- 1. per universe part (in parallel): TLC theorem run + dump -> replay -> TLC trace validation;
     #         sensitivity runs alongside
-    def enum(part):
+    def enum(parts):
+        part = "+".join(parts)
         dump = ctx.scratch / f"omml-{part}.dump"
-        r = run_tlc("OmmlGen", _enum_cfg(part, profile), scratch=ctx.scratch, dump=dump, workers=2, timeout=1700,
+        r = run_tlc("OmmlGen", _enum_cfg(parts, profile), scratch=ctx.scratch, dump=dump, workers=2, timeout=1700,
                     expect_fail=True, heap="6g")
         if r.violated:
             return part, r, None, None
@@ -664,18 +667,19 @@ def run(ctx):
             raise MachineryError(f"dump of {part} has {len(cases)} states, TLC reported {r.distinct}")
         path.unlink(missing_ok=True)
         ctx.log(f"{part}: {len(cases)} trees enumerated by TLC ({r.wall_s:.0f}s)")
-        obs = _observe(ctx, cases, known, part, nproc=4)
-        return part, r, obs, _validate(ctx, obs, 4)
+        obs = _observe(ctx, cases, known, part, nproc=2 if not ctx.thorough else 4)
+        return part, r, obs, _validate(ctx, obs, 1 if not ctx.thorough else 3)
 
     def sens(item):
         dev, part, inv = item
-        r = run_tlc("OmmlGen", _enum_cfg(part, "quick", devs=[dev], invs=[inv]), scratch=ctx.scratch, workers=2,
+        r = run_tlc("OmmlGen", _enum_cfg([part], "quick", devs=[dev], invs=[inv]), scratch=ctx.scratch, workers=2,
                     timeout=900, expect_fail=True)
         return item, r
 
     sens_items = SENSITIVITY if ctx.thorough else SENSITIVITY[:2]
-    pool = ThreadPoolExecutor(max_workers=len(PARTS) + len(sens_items))
-    enum_f = [pool.submit(enum, p) for p in PARTS]
+    parts_list = PARTS_THOROUGH if ctx.thorough else PARTS_QUICK
+    pool = ThreadPoolExecutor(max_workers=len(parts_list) + len(sens_items))
+    enum_f = [pool.submit(enum, p) for p in parts_list]
     sens_f = [pool.submit(sens, s) for s in sens_items]
 
     total = 0
@@ -710,11 +714,11 @@ def run(ctx):
         ev.sample(s)
     for clause, n in sorted(counts.items()):
         ctx.log(f"clause {clause}: {n} trees rejected")
-    ev.set(rule="every tree of the TLC-enumerated universe (wide / pairs / deep1-3 / symbols) serialised to OMML, "
+    ev.set(rule="every tree of the TLC-enumerated universe (wideN, wideO, pairs, triples, deep1-3, symbols) serialised to OMML, "
                 "converted twice by omml_to_latex and through read_docx / read_pptx, tokenised, validated by TLC "
                 "(OmmlTrace); + the repo's own test formulas; thorough: + tlc -simulate trees. non-trivial = "
                 "distinct trees with at least one structural element",
-           exhaustive=True, constants={"profile": profile, "parts": PARTS, "trees": total})
+           exhaustive=True, constants={"profile": profile, "parts": parts_list, "trees": total})
     ev.assume("symbol table and templates transcribed into Omml.tla from the module docstring / standard LaTeX names",
               "role children are in schema order (document order = field order); stray runs outside role "
               "children are outside the universe",
@@ -757,7 +761,7 @@ def _simulate(ctx, known, counts):
     num = 3000
     prefix = ctx.scratch / "sim" / "b"
     prefix.parent.mkdir(exist_ok=True)
-    cfg = ('SPECIFICATION SpecBuild\nCONSTANTS Deviations = {}\n Profile = "thorough"\n Part = "none"\n'
+    cfg = ('SPECIFICATION SpecBuild\nCONSTANTS Deviations = {}\n Profile = "thorough"\n Part = {}\n'
            " MaxStack = 4\n MaxLen = 3\nINVARIANT Inv_BuildClauses\n")
     r = run_tlc("OmmlGen", cfg, scratch=ctx.scratch, simulate=f"file={prefix},num={num}", depth=22, seed=ctx.seed,
                 workers=8, timeout=1500, expect_fail=True)
